@@ -118,6 +118,36 @@ example : ∀ a ∈ [[97, 32, 98], [1, 102, 0xff, 0xc2, 0xa0], ([] : Bytes)], Nu
   unfold NulFree; decide
 example : quote [97, 0, 98] = .error 1 := by decide
 
+/-! ## "any variable value": non-string values
+
+`shellQuote` / `q` take any value and quote it the way the template engine prints it (fix
+PENDING-V8-4; before, a YAML number / boolean / list failed with `wrong type for value`).
+The printed form is a byte string, so the statement is `C19_shellQuote` applied to it. -/
+
+/-- the values a Taskfile variable can hold that are not strings, and what `{{.X}}` prints for them -/
+inductive Scalar where
+  | nat (n : Nat) | negNat (n : Nat) | bool (b : Bool) | printed (s : Bytes)    -- `printed`: floats, lists, maps — whatever `fmt.Sprint` gives
+deriving Repr
+
+def natDigits : Nat → Nat → Bytes
+  | 0, _ => [48]
+  | fuel + 1, n => if n < 10 then [(48 + n).toUInt8] else natDigits fuel (n / 10) ++ [(48 + n % 10).toUInt8]
+
+def Scalar.print : Scalar → Bytes
+  | .nat n => natDigits n n
+  | .negNat n => 45 :: natDigits n n
+  | .bool true => [116, 114, 117, 101]
+  | .bool false => [102, 97, 108, 115, 101]
+  | .printed s => s
+
+/-- **`{{shellQuote .N}}` for a non-string value**: one word, the value as the engine prints it -/
+theorem C19_shellQuote_scalar (v : Scalar) (h : NulFree v.print) :
+    ∃ q, quote v.print = .ok q ∧ words q = some [v.print] := C19_shellQuote v.print h
+
+example : (Scalar.nat 42).print = [52, 50] ∧ (Scalar.negNat 7).print = [45, 55] ∧ (Scalar.nat 0).print = [48] := by decide
+example : NulFree (Scalar.nat 42).print := by unfold NulFree; decide
+example : (quote (Scalar.bool true).print).toOption.bind words = some [[116, 114, 117, 101]] := by decide
+
 /-! ## The template passes (DESIGN §8 row 26): full statement, counterexample, partial -/
 
 /-- C19 at full strength for forwarded arguments: whatever the template engine does with
